@@ -3,9 +3,10 @@
 From AV Require Import Base Machine GroupInv GroupInv2 GroupInv3 GroupInv4 GroupInv5 GroupInv6 GroupInv7 GroupInv8
   GroupThms2.
 
-Definition Qh (h0 : nat) (k : task) : Prop := k_group k = None \/ k_hscope k = h0.
+Definition Qh (h0 : nat * nat) (k : task) : Prop :=
+  k_group k = None \/ (k_hscope k = fst h0 /\ forall f, k_startfut k = Some f -> snd h0 <= f).
 
-Definition nstab (h0 : nat) (s s' : st) : Prop := forall t, Qh h0 (tasks s t) -> Qh h0 (tasks s' t).
+Definition nstab (h0 : nat * nat) (s s' : st) : Prop := forall t, Qh h0 (tasks s t) -> Qh h0 (tasks s' t).
 
 Lemma nstab_refl h0 s : nstab h0 s s.
 Proof. intros t H. exact H. Qed.
@@ -19,15 +20,16 @@ Proof. intros E _ _ t H. now rewrite E. Qed.
 Lemma nstab_kstar h0 C T s s' : kstar C T s s' -> nstab h0 s s'.
 Proof.
   intros H t. pose proof (tview_inv _ _ (fr_tv _ _ _ _ (kframe_kstar _ _ _ _ H) t)) as V.
-  destruct V as [_ [_ [_ [V4 [V5 _]]]]]. unfold Qh. now rewrite V4, V5.
+  destruct V as [_ [_ [_ [V4 [V5 [_ [_ [_ [V9 _]]]]]]]]]. unfold Qh. now rewrite V4, V5, V9.
 Qed.
 
-Definition nk_keeps (g : task -> task) : Prop := forall k, k_group (g k) = k_group k /\ k_hscope (g k) = k_hscope k.
+Definition nk_keeps (g : task -> task) : Prop :=
+  forall k, k_group (g k) = k_group k /\ k_hscope (g k) = k_hscope k /\ k_startfut (g k) = k_startfut k.
 
 Lemma nstab_upd_task h0 s t g : nk_keeps g -> nstab h0 s (upd_task s t g).
 Proof.
   intros Hg x. cbn [upd_task set_tasks tasks]. unfold upd. destruct (Nat.eqb_spec x t); [subst|auto].
-  destruct (Hg (tasks s t)) as [E1 E2]. unfold Qh. now rewrite E1, E2.
+  destruct (Hg (tasks s t)) as [E1 [E2 E3]]. unfold Qh. now rewrite E1, E2, E3.
 Qed.
 
 Lemma nkeeps_ctl c : nk_keeps (tk_ctl c). Proof. intros k. cbn. tauto. Qed.
@@ -37,7 +39,7 @@ Lemma nkeeps_held h : nk_keeps (tk_held h). Proof. intros k. cbn. tauto. Qed.
 Lemma nkeeps_started b : nk_keeps (tk_started b). Proof. intros k. cbn. tauto. Qed.
 Lemma nkeeps_hres a b : nk_keeps (tk_hres a b). Proof. intros k. cbn. tauto. Qed.
 Lemma nkeeps_irrel g : tk_irrel g -> nk_keeps g.
-Proof. intros H k. destruct (H k) as [_ [_ [_ [_ [H5 [H6 _]]]]]]. tauto. Qed.
+Proof. intros H k. destruct (H k) as [_ [_ [_ [_ [H5 [H6 [_ [_ [_ [H10 _]]]]]]]]]]. tauto. Qed.
 
 Lemma nstab_fc h0 s f v : nstab h0 s (fut_complete s f v).
 Proof. apply nstab_eq; [apply fc_tasks|apply fc_ntask|rewrite fc_ngroup; lia]. Qed.
@@ -132,14 +134,17 @@ Proof.
   intros Hk t H. unfold talloc. cbn [tasks]. unfold upd. destruct (Nat.eqb_spec t (ntask s)); [exact Hk|exact H].
 Qed.
 
-Lemma nstab_spawned h0 s g sf : h0 = nscope s -> nstab h0 s (spawned s g sf).
+Lemma nstab_spawned h0 s g sf : h0 = (nscope s, nfut s) \/ (exists f, sf = Some f /\ h0 = (nscope s, f)) ->
+  (sf = None \/ exists f, sf = Some f /\ snd h0 <= f) -> nstab h0 s (spawned s g sf).
 Proof.
-  intros Hh t H. rewrite spawned_eq. cbn zeta. cbn [call_soon set_ready tasks].
+  intros Hh Hsf t H. rewrite spawned_eq. cbn zeta. cbn [call_soon set_ready tasks].
   match goal with |- Qh h0 (tasks (restart ?a ?b) t) =>
     pose proof (tview_inv _ _ (fr_tv _ _ _ _ (kframe_kstar _ _ _ _ (ks_restart none_s none_t a b)) t)) as V end.
-  destruct V as [_ [_ [_ [V4 [V5 _]]]]]. unfold Qh. rewrite V4, V5.
+  destruct V as [_ [_ [_ [V4 [V5 [_ [_ [_ [V9 _]]]]]]]]]. unfold Qh. rewrite V4, V5, V9.
   cbn [upd_group set_groups upd_scope set_scopes tasks talloc]. unfold upd.
-  destruct (Nat.eqb_spec t (ntask (ns s None false))); [right; cbn; exact (eq_sym Hh)|exact H].
+  destruct (Nat.eqb_spec t (ntask (ns s None false))); [|exact H]. right. cbn. split.
+  - destruct Hh as [->|[f [_ ->]]]; reflexivity.
+  - intros f E. destruct Hsf as [->|[f' [-> Hf]]]; [discriminate|]. injection E as <-. exact Hf.
 Qed.
 
 Lemma nstab_aexit_raise h0 s t g e : nstab h0 s (fst (aexit_raise s t g e)).
@@ -185,7 +190,7 @@ Proof.
 Qed.
 
 (* the puppet operations *)
-Lemma nstab_puppet_op h0 s0 t o : h0 = nscope s0 -> nstab h0 s0 (fst (puppet_op s0 t o)).
+Lemma nstab_puppet_op h0 s0 t o : h0 = (nscope s0, nfut s0) -> nstab h0 s0 (fst (puppet_op s0 t o)).
 Proof.
   intros Hh. unfold puppet_op. pose proof (nstab_begin h0 s0 t) as B. set (s := begin_act s0 t) in *.
   destruct o; try apply nstab_refl; (eapply nstab_trans; [exact B|]).
@@ -216,10 +221,10 @@ Proof.
     eapply nstab_trans; [exact T1|]. destruct (g_tasks (groups s1 g)); [|apply nstab_wof].
     rewrite new_scope_eq. cbn zeta. npeel nstab_block. npeel nstab_eq; [|reflexivity|reflexivity|reflexivity].
     npeel nstab_scope_enter. nby_eq.
-  - destruct (negb (group_active s g)); [npeel_ret; apply nstab_refl|]. rewrite spawn_task_eq. npeel_ret. apply nstab_spawned. exact Hh.
+  - destruct (negb (group_active s g)); [npeel_ret; apply nstab_refl|]. rewrite spawn_task_eq. npeel_ret. apply nstab_spawned; [left; exact Hh|left; reflexivity].
   - destruct (negb (group_active s g)); [npeel_ret; apply nstab_refl|]. rewrite new_fut_eq. cbv beta iota.
     rewrite spawn_task_eq. cbv beta iota. npeel nstab_block. npeel nstab_suspend_on.
-    eapply nstab_trans; [apply (nstab_nf h0 s)|apply nstab_spawned; exact Hh].
+    eapply nstab_trans; [apply (nstab_nf h0 s)|apply nstab_spawned; [right; exists (nfut s); split; [reflexivity|exact Hh]|right; exists (nfut s); split; [reflexivity|rewrite Hh; cbn; lia]]].
   - destruct (k_startfut (tasks s t)) as [f|]; [|npeel_ret; apply nstab_refl].
     destruct (f_st (futs s f)); npeel_ret; try apply nstab_refl. apply nstab_fc.
   - destruct (e_set _); npeel_ret; [apply nstab_refl|apply nstab_scope_cancel].
@@ -250,7 +255,7 @@ Lemma nstable_final_unused : True. Proof. exact I. Qed.
 
 Lemma nstab_rec_task h0 s t raw : nstab h0 s (rec_task s t raw).
 Proof.
-  intros x. destruct (rec_task_fields s t raw x) as [_ [_ [_ [E4 [E5 _]]]]]. unfold Qh. now rewrite E4, E5.
+  intros x. destruct (rec_task_fields s t raw x) as [_ [_ [_ [E4 [E5 [_ [E7 _]]]]]]]. unfold Qh. now rewrite E4, E5, E7.
 Qed.
 
 Lemma nstab_puppet_finish h0 s0 t v : nstab h0 s0 (fst (puppet_finish s0 t v)).
@@ -368,14 +373,14 @@ Proof.
   apply (nstab_talloc h0 s root_rec false). left. reflexivity.
 Qed.
 
-Lemma N5b_wake_step (h0 : nat) s t : Inv s -> In (HStep t) (ready s) -> wake_ok (pop s (HStep t)) t None.
+Lemma N5b_wake_step (h0 : nat * nat) s t : Inv s -> In (HStep t) (ready s) -> wake_ok (pop s (HStep t)) t None.
 Proof.
   intros [M Hr] Hin. destruct (M_pop s (HStep t) M Hin) as [M1 [Hnt _]].
   destruct (k_step s (m_k s M) t Hin) as [H1 [H2 [H3 H4]]].
   constructor; auto. apply Hnt. cbn. auto.
 Qed.
 
-Lemma N5b_wake_wake (h0 : nat) s t f : Inv s -> In (HWake t f) (ready s) -> wake_ok (pop s (HWake t f)) t (Some f).
+Lemma N5b_wake_wake (h0 : nat * nat) s t f : Inv s -> In (HWake t f) (ready s) -> wake_ok (pop s (HWake t f)) t (Some f).
 Proof.
   intros [M Hr] Hin. destruct (M_pop s (HWake t f) M Hin) as [M1 [Hnt _]].
   destruct (k_wake s (m_k s M) t f Hin) as [H1 H2]. destruct (k_w1 s (m_k s M) t f H1) as [H3 [H4 [H5 [H6 H7]]]].
@@ -384,7 +389,7 @@ Qed.
 
 (* C01: stability. For every already allocated task: its group, handle scope, finished event and start future
    never change; once done / task_done-ran / coroutine-ended, always so (with the same outcome) *)
-Theorem new_task_qh h0 s o : reach s -> h0 = nscope s -> nstab h0 s (fst (step s o)).
+Theorem new_task_qh h0 s o : reach s -> h0 = (nscope s, nfut s) -> nstab h0 s (fst (step s o)).
 Proof.
   intros R Hh. pose proof (reachable s R) as I0. unfold step. destruct (actor o) as [t|] eqn:Ea.
   - destruct (idle s t) eqn:Ei; cbn [negb]; [|apply nstab_refl].
@@ -397,8 +402,8 @@ Proof.
       apply existsb_handle in Eh. rewrite pop_eq_frame.
       assert (P : nstab h0 s (pop s h)) by nby_eq. eapply nstab_trans; [exact P|].
       destruct h as [t|t f|c|t|f tm|c tm].
-      * apply nstab_resume, (N5b_wake_step 0); assumption.
-      * apply nstab_resume, (N5b_wake_wake 0); assumption.
+      * apply nstab_resume, (N5b_wake_step (0,0)); assumption.
+      * apply nstab_resume, (N5b_wake_wake (0,0)); assumption.
       * cbn [fst]. npeel nstab_set_running. npeel nstab_deliver_top. nby_eq.
       * cbn [fst]. apply nstab_run_task_done.
       * cbn [fst]. apply nstab_fc.
